@@ -49,6 +49,16 @@ func c19Scenarios(thorough bool) []*scenario {
 		mk("hanging-hook", "hang", []cop{upd("u", "n1")}),
 		mk("hanging-hook-burst", "hang", []cop{upd("u", "n1"), upd("u", "n2")}),
 	}
+	// queue capacities scaled to 1: a hook caller that does not keep reading notifications while a
+	// hook hangs makes the dispatcher wait for the kill timer
+	hq := mk("hanging-hook-queue-k1", "hang", []cop{upd("u", "n1"), upd("u", "n2"), upd("v", "n3"), upd("u", "n4")})
+	hq.CapLimit = 1
+	out = append(out, hq)
+	var many []cop
+	for i := 0; i < 36; i++ {
+		many = append(many, upd("u", fmt.Sprintf("m%d", i)))
+	}
+	out = append(out, mk("hanging-hook-36-changes-truecap", "hang", many))
 	rl := mk("reload-between-changes", "fast", []cop{upd("u", "n1"), {Kind: "sighup", Cfg: 1}, {Kind: "check"}, upd("u", "n2")})
 	rl.Cfgs = []cfgSpec{{Kind: "valid", Default: 1, Dir: "A"}, {Kind: "valid", Default: 1, Dir: "B"}}
 	out = append(out, rl)
@@ -71,6 +81,16 @@ func c19Modes(sc *scenario, thorough bool) []mc.Options {
 		return []mc.Options{{Bound: 0, AllCost: true, MaxSteps: 2000}}
 	}
 	out := []mc.Options{}
+	if strings.Contains(sc.Name, "truecap") || strings.Contains(sc.Name, "queue-k1") {
+		b := 1
+		if thorough {
+			b = 2
+		}
+		for order := 0; order < 4; order++ {
+			out = append(out, mc.Options{Bound: b, AllCost: true, Order: order, MaxSteps: 20000})
+		}
+		return out
+	}
 	if !strings.HasPrefix(sc.Hooks, "hang") || thorough || len(sc.Clients[0]) == 1 {
 		out = append(out, mc.Options{Bound: -1, Prune: true, MaxSteps: 6000})
 	}
@@ -122,6 +142,22 @@ func c19Harness(sc *scenario) mc.Harness {
 				c19m.muts = append(c19m.muts, c19mut{s.Steps, w.dirA})
 			}
 			c19m.lastA = a
+			// the agent never waits for a timer: whenever a client request is in flight, some
+			// thread (not only the passage of time) must be able to make progress
+			onlyTime := len(s.Enabled) > 0
+			for _, d := range s.Enabled {
+				if !strings.HasPrefix(d, "env:") {
+					onlyTime = false
+				}
+			}
+			if onlyTime {
+				for _, e := range w.events {
+					if e.Resp < 0 && e.Op.Kind != "sleep" && e.Op.Kind != "sighup" {
+						return []mc.Viol{{Key: "request-waits-for-a-timer", Desc: fmt.Sprintf("request %v is unanswered and nothing but the passage of time (%v) can make progress: the agent is delayed by a hook; events: %s",
+							e.Op, s.Enabled, strings.Join(w.describeEvents(), " | "))}}
+					}
+				}
+			}
 			if len(w.sc.Cfgs) > 0 {
 				b := rawDigest(w.dirB)
 				if c19m.lastB != "" && b != c19m.lastB {
